@@ -143,10 +143,10 @@ type deep struct {
 	resv  int // index of the first reserved local: [resv] = stack depth at entry, [resv+1+d] = loop counter of nesting d
 }
 
-func (g *deep) push(t ty)   { g.st = append(g.st, t) }
-func (g *deep) pop() ty     { t := g.st[len(g.st)-1]; g.st = g.st[:len(g.st)-1]; return t }
+func (g *deep) push(t ty)    { g.st = append(g.st, t) }
+func (g *deep) pop() ty      { t := g.st[len(g.st)-1]; g.st = g.st[:len(g.st)-1]; return t }
 func (g *deep) top(i int) ty { return g.st[len(g.st)-1-i] }
-func (g *deep) avail() int  { return len(g.st) - g.floor }
+func (g *deep) avail() int   { return len(g.st) - g.floor }
 
 func (g *deep) pushPrim() {
 	switch g.r.Intn(7) {
@@ -523,6 +523,93 @@ func (g *deep) step() {
 	g.pushPrim()
 }
 
+// oor emits an instruction-raised catchable exception: SETITEM / PICKITEM with an index out of range (or a
+// missing map key) on a temporary or on a shared container, with a primitive, struct or array value.  What
+// follows in the same block is dead code.  Only used where some handler will catch it.
+func (g *deep) oor() {
+	r := g.r
+	set := r.Intn(2) == 0
+	length := 0
+	// the container
+	existing := g.avail() >= 1 && g.top(0).seq() && r.Intn(3) == 0
+	switch {
+	case existing:
+		g.a.op(DUP) // a container that is referenced elsewhere, of unknown length: a negative index is always out of range
+		length = -1
+	default:
+		switch k := r.Intn(6); {
+		case k == 0:
+			g.a.op(NEWARRAY0)
+		case k == 1:
+			length = 1 + r.Intn(3)
+			g.a.pushInt(int64(length))
+			g.a.op(NEWARRAY)
+		case k == 2:
+			length = r.Intn(3)
+			g.a.pushInt(int64(length))
+			g.a.op(NEWSTRUCT)
+		case k == 3:
+			length = r.Intn(3)
+			g.a.pushInt(int64(length))
+			g.a.op(NEWBUFFER)
+		case k == 4 && !set:
+			g.a.op(NEWMAP) // PICKITEM with a key that is not there
+		case k == 5 && !set:
+			d := make([]byte, r.Intn(3))
+			length = len(d)
+			g.a.pushData(d)
+		default:
+			g.a.op(PUSH0, PACK)
+		}
+		// shared or temporary
+		switch r.Intn(4) {
+		case 0:
+			if len(g.stat) > 0 {
+				j := r.Intn(len(g.stat))
+				g.a.op(DUP, STSFLD0+j)
+				g.stat[j] = tAny
+			}
+		case 1:
+			g.a.op(DUP)
+			g.push(tAny) // one copy stays on the stack
+		}
+	}
+	// the index
+	switch {
+	case length < 0:
+		g.a.pushInt(-1)
+	case r.Intn(3) == 0:
+		g.a.pushInt(-1 - int64(r.Intn(3)))
+	default:
+		g.a.pushInt(int64(length + r.Intn(3)))
+	}
+	if !set {
+		g.a.op(PICKITEM)
+		g.push(tAny) // (dead code keeps a consistent picture)
+		return
+	}
+	// the value
+	switch r.Intn(5) {
+	case 0:
+		g.a.op(PUSH1)
+	case 1:
+		g.a.pushInt(int64(1 + r.Intn(2)))
+		g.a.op(NEWSTRUCT)
+	case 2:
+		g.a.op(PUSH1, NEWSTRUCT, PUSH1, PACKSTRUCT) // nested struct: cloned by value
+	case 3:
+		g.a.op(PUSH2, NEWARRAY)
+	default:
+		if ld, _, ok := g.anySlot(); ok {
+			ld()
+			g.pop()
+		} else {
+			g.a.op(PUSHNULL)
+		}
+	}
+	g.a.op(SETITEM)
+}
+
 // settle brings the stack back to height `to` (only drops).
 func (g *deep) settle(to int) {
 	for len(g.st) > to {
@@ -547,6 +634,8 @@ func (g *deep) block(n int) {
 		case k == 5 && g.avail() >= 1 && (g.inTry > 0 || (g.cur >= 0 && g.r.Intn(3) == 0)):
 			g.a.op(THROW) // the rest of the block is dead code (still well formed)
 			g.pop()
+		case k == 6 && (g.inTry > 0 || (g.cur >= 0 && g.r.Intn(3) == 0)):
+			g.oor()
 		default:
 			g.step()
 		}
@@ -619,6 +708,9 @@ func (g *deep) try() {
 		g.inTry++
 	}
 	g.block(1 + g.r.Intn(5))
+	if g.inTry > 0 && g.r.Intn(3) == 0 { // end the body with an exception raised by an instruction
+		g.oor()
+	}
 	if hasCatch {
 		g.inTry--
 	}
@@ -868,7 +960,14 @@ func genLimits(r *rand.Rand) []limitCase {
 	add("int-shl", func(a *asm) { a.op(PUSH1); a.pushInt(254); a.op(SHL, DUP, PUSH1, SHL) })
 	add("int-shl-neg", func(a *asm) { a.op(PUSHM1); a.pushInt(255); a.op(SHL, DUP, PUSH1, SHL) })
 	add("int-pow", func(a *asm) { a.op(PUSH2); a.pushInt(254); a.op(POW, PUSH2); a.pushInt(255); a.op(POW) })
-	add("int-pow-neg", func(a *asm) { a.pushInt(-2); a.pushInt(255); a.op(POW); a.pushInt(-2); a.pushInt(256); a.op(POW) })
+	add("int-pow-neg", func(a *asm) {
+		a.pushInt(-2)
+		a.pushInt(255)
+		a.op(POW)
+		a.pushInt(-2)
+		a.pushInt(256)
+		a.op(POW)
+	})
 	add("int-add", func(a *asm) { a.pushBig(maxI, 32); a.op(DUP, ADD) })
 	add("int-sub", func(a *asm) { a.pushBig(minI, 32); a.op(PUSH1, SUB) })
 	add("int-invert", func(a *asm) { a.pushBig(maxI, 32); a.op(INVERT, DUP, DEC) })
@@ -990,6 +1089,161 @@ func genLimits(r *rand.Rand) []limitCase {
 		a.op(LDLOC0, LDLOC0+1, APPEND, ENDFINALLY)
 		a.op(RET)
 	})
+	return out
+}
+
+// ---------------------------------------------------------------- exceptions raised by instructions
+
+// genOOR enumerates SETITEM / PICKITEM with an index out of range (PICKITEM also with a missing map key) over
+// container kind x sharing x value kind x the place of the handler (catch, catch+finally, finally inside an
+// outer catch, one and two calls deep with locals holding compound items).  The catch block goes on for a
+// few instructions, so that the counter is compared with the walk after the exception was handled.
+func genOOR(r *rand.Rand) []limitCase {
+	var out []limitCase
+	n := 0
+	containers := []string{"arr0", "arr2", "struct1", "buffer2", "map1", "bytes2"}
+	sharings := []string{"temp", "dup", "slot", "nested"}
+	values := []string{"prim", "struct", "struct2", "array"}
+	wraps := []string{"catch", "catch-finally", "finally-in-catch", "call", "call2"}
+	for _, set := range []bool{true, false} {
+		for _, c := range containers {
+			if set && (c == "map1" || c == "bytes2") {
+				continue // SETITEM on a map never raises; a byte string is not a container for SETITEM
+			}
+			for _, sh := range sharings {
+				vals := values
+				if !set {
+					vals = values[:1]
+				}
+				for _, val := range vals {
+					for _, w := range wraps {
+						n++
+						a := &asm{}
+						a.op1(INITSSLOT, 2)
+						var length int
+						body := func() {
+							switch c {
+							case "arr0":
+								a.op(NEWARRAY0)
+							case "arr2":
+								a.op(PUSH2, NEWARRAY)
+								length = 2
+							case "struct1":
+								a.op(PUSH1, NEWSTRUCT)
+								length = 1
+							case "buffer2":
+								a.op(PUSH2, NEWBUFFER)
+								length = 2
+							case "map1":
+								a.op(PUSH1, PUSH0, PUSH1, PACKMAP) // {0: 1}
+								length = 7                         // a key that is not there
+							default:
+								a.pushData([]byte("ab"))
+								length = 2
+							}
+							switch sh {
+							case "dup":
+								a.op(DUP)
+							case "slot":
+								a.op(DUP, STSFLD0)
+							case "nested":
+								a.op(DUP, PUSH1, PACK, STSFLD0+1)
+							}
+							switch (n + r.Intn(3)) % 3 {
+							case 0:
+								a.pushInt(int64(length))
+							case 1:
+								a.pushInt(int64(length + 1 + r.Intn(100)))
+							default:
+								if c == "map1" {
+									a.pushInt(int64(length))
+								} else {
+									a.pushInt(-1)
+								}
+							}
+							if !set {
+								a.op(PICKITEM)
+								return
+							}
+							switch val {
+							case "prim":
+								a.op(PUSH1)
+							case "struct":
+								a.op(PUSH2, NEWSTRUCT)
+							case "struct2":
+								a.op(PUSH1, NEWSTRUCT, NEWARRAY0, PUSH2, PACKSTRUCT)
+							default:
+								a.op(PUSH3, NEWARRAY)
+							}
+							a.op(SETITEM)
+						}
+						after := func() { // the catch block: message on top
+							a.op(NOP, DROP, PUSH1, DROP, LDSFLD0, DROP)
+						}
+						var fixEnd []int
+						switch w {
+						case "catch", "catch-finally":
+							t := a.tryL()
+							body()
+							fixEnd = append(fixEnd, a.jmpL(ENDTRYL))
+							a.fix(t, 0, a.pos())
+							after()
+							fixEnd = append(fixEnd, a.jmpL(ENDTRYL))
+							if w == "catch-finally" {
+								a.fix(t, 1, a.pos())
+								a.op(NOP, PUSH2, DROP, ENDFINALLY)
+							}
+						case "finally-in-catch":
+							t := a.tryL()
+							t2 := a.tryL()
+							body()
+							e := a.jmpL(ENDTRYL)
+							a.fix(t2, 1, a.pos())
+							a.op(NOP, LDSFLD0+1, DROP, ENDFINALLY)
+							a.fix(e, 0, a.pos())
+							fixEnd = append(fixEnd, a.jmpL(ENDTRYL))
+							a.fix(t, 0, a.pos())
+							after()
+							fixEnd = append(fixEnd, a.jmpL(ENDTRYL))
+						default: // the instruction runs one or two invocations below the handler
+							t := a.tryL()
+							a.op(PUSH3, NEWARRAY) // an argument that is a compound item
+							call := a.jmpL(CALLL)
+							a.op(DROP)
+							fixEnd = append(fixEnd, a.jmpL(ENDTRYL))
+							a.fix(t, 0, a.pos())
+							after()
+							fixEnd = append(fixEnd, a.jmpL(ENDTRYL))
+							skip := a.jmpL(JMPL)
+							a.fix(call, 0, a.pos())
+							a.op(INITSLOT, 2, 1)
+							a.op(LDARG0, STLOC0, PUSH2, NEWSTRUCT, STLOC0+1)
+							if w == "call2" {
+								a.op(LDLOC0 + 1)
+								c2 := a.jmpL(CALLL)
+								a.op(RET)
+								a.fix(c2, 0, a.pos())
+								a.op(INITSLOT, 1, 1)
+								a.op(LDARG0, PUSH1, PACK, STLOC0)
+							}
+							body()
+							a.op(PUSH1, RET)
+							a.fix(skip, 0, a.pos())
+						}
+						for _, f := range fixEnd {
+							a.fix(f, 0, a.pos())
+						}
+						a.op(NOP, DEPTH, DROP, RET)
+						op := "pickitem"
+						if set {
+							op = "setitem"
+						}
+						out = append(out, limitCase{op + "-" + c + "-" + sh + "-" + val + "-" + w, a.b})
+					}
+				}
+			}
+		}
+	}
 	return out
 }
 
